@@ -146,7 +146,7 @@ theorem box_spacing_first_last (ws : WS) (split : IR.Split) (ls rs : Rat) (deco 
       deco frags) := by
   unfold IR.boxLevel at h
   simp only at h
-  generalize IR.boxLoop ws split rs (maxX * Gen.LineBreak.fudge) skip _ _ posX [] [] none none false _ = res at h
+  generalize IR.boxLoop ws split rs (maxX * Gen.LineBreak.fudge) skip _ _ posX [] [] none .none false _ = res at h
   cases res with
   | error e => cases h
   | ok lo =>
